@@ -31,7 +31,7 @@ def _calls(name: str, ptypes: list[str], rng: random.Random, n: int, idx_params:
         setup = []
         for i, t in enumerate(ptypes):
             if idx_params and i in idx_params and rng.random() < 0.8:
-                setup.append(f"a{i} = {rng.choice(IDX)}")
+                setup.append(f"a{i} = {rng.choice(IDX[:9] if t == 'i64' else IDX)}")
             else:
                 setup.append(f"a{i} = {val(t, rng)}")
         out.append({"setup": setup, "call": f"{name}({', '.join(f'a{i}' for i in range(len(ptypes)))})",
@@ -63,7 +63,7 @@ def t_prim(rng: random.Random, u: str, hostile: bool = False) -> Unit:
     else:
         body = ["try:", f"    return {body_e}", "except (IndexError, KeyError, ValueError, ZeroDivisionError, OverflowError) as e:",
                 "    print(type(e).__name__)", f"    return {lit(res, rng, True) if 'Any' not in res and res != 'Pt3' else body_e}"]
-    idx = {i for i, t in enumerate(ptypes) if t == "int" and ("[{%d}" % i in p.tmpl or "pop({%d}" % i in p.tmpl)}
+    idx = {i for i, t in enumerate(ptypes) if t in ("int", "i64") and ("[{%d}" % i in p.tmpl or "pop({%d}" % i in p.tmpl)}
     return {"src": "\n".join([sig] + ind(body)), "calls": _calls(u + "_f", ptypes, rng, rng.choice([6, 8, 10]), idx),
             "tags": [p.tag, "prim." + variant], "kind": "prim:" + p.tag}
 
